@@ -227,7 +227,7 @@ func (ex *Exec) checkAssert(c *Term, label string, fr *frame, pos tokenPos) {
 	case "unsat":
 		h.stats.Discharged++
 	case "sat":
-		h.addViolation(&Violation{Harness: h.Name, Kind: "assert", Label: label, Site: ex.site(fr.fn, pos), Values: vals, Path: h.stats.Paths + 1, Stack: lastN(ex.callStack, 6)})
+		h.addViolation(&Violation{Harness: h.Name, Kind: "assert", Label: label, Site: ex.site(fr.fn, pos), Values: vals, Path: h.stats.Paths + 1, Stack: lastN(ex.callStack, 6), Notes: append([]string(nil), ex.pathNotes...)})
 	default:
 		msg := "assertion " + label + ": solver answered unknown"
 		dup := false
@@ -1398,7 +1398,7 @@ var two53 = new(big.Int).Lsh(big.NewInt(1), 53)
 func icScaledValue(ex *Exec, fr *frame, fn *ssa.Function, args []Value, pos tokenPos) Value {
 	p := args[0].(PtrV)
 	if p.c == nil {
-		ex.raise(fr, pos, "nil pointer dereference (intstr.GetScaledValueFromIntOrPercent(nil))")
+		return TupleV{mkInt(0), ex.newError(mkStr("nil value for IntOrString"))}
 	}
 	total := asTerm(args[1])
 	roundUp := asTerm(args[2])
